@@ -148,6 +148,20 @@ func (e *limbEngine) forkBool(f *ssa.Function, st *lstate, ret *lval, k func(*ls
 		return
 	}
 	for _, val := range []bool{true, false} {
+		if ret.conj != nil && val == ret.conjNeg {
+			// `return x == y` on structs answering false: field i is the first that differs
+			for ci, cj := range ret.conj {
+				f3 := fr.fork()
+				ok := true
+				for _, before := range ret.conj[:ci] {
+					ok = ok && e.assume(f3, &lval{cmp: before}, true)
+				}
+				if ok && e.assume(f3, &lval{cmp: cj}, false) {
+					k(f3.st, val, true)
+				}
+			}
+			continue
+		}
 		f2 := fr.fork()
 		if e.assume(f2, ret, val) {
 			k(f2.st, val, true)
